@@ -204,6 +204,9 @@ class SymEval(object):
     if isinstance(n, ast.BinOp):
       if isinstance(n.op, ast.Mod):
         l = self.ev(n.left, env, fn)
+        cv = class_constant(n.left, fn)
+        if isinstance(cv, str):
+          l = ('const', cv)          # a template kept as a class-level constant
         if l[0] == 'const' and isinstance(l[1], str):
           r = self.ev(n.right, env, fn)
           args = r[1:] if r[0] == 'tuple' else (r,)
@@ -405,6 +408,23 @@ class SymEval(object):
           self.run(callee.body, env2, callee, sink, out, depth + 1, loops)
         return
     # callbacks scheduled for later are recorded by the rules that care (see deferred())
+
+
+def class_constant(node, fn):
+  """value of `self.NAME` / `cls.NAME` / `Class.NAME` when NAME is bound once, at class level, to a literal and no method
+  of the class assigns an attribute of that name; None otherwise."""
+  if not (isinstance(node, ast.Attribute) and isinstance(node.value, ast.Name)) or fn is None or fn.cls is None:
+    return None
+  if node.value.id not in ((fn.params[:1] if fn.params else []) + [fn.cls.name, 'self', 'cls']):
+    return None
+  v = fn.cls.attrs.get(node.attr)
+  if not isinstance(v, ast.Constant):
+    return None
+  for m in fn.cls.methods.values():
+    for x in ast.walk(m.node):
+      if isinstance(x, ast.Attribute) and x.attr == node.attr and isinstance(x.ctx, (ast.Store, ast.Del)):
+        return None
+  return v.value
 
 
 def _const_of(t, fn):
